@@ -212,13 +212,14 @@ func TestC08(t *testing.T) {
 			for i := 0; i < k; i++ {
 				d := bbBallotDesc{Height: fh, Round: fr, ExpelBy: "full", Node: rapid.IntRange(0, n-1).Draw(rt, "node")}
 
-				switch rapid.IntRange(0, 9).Draw(rt, "variant") {
+				switch rapid.SampledFrom([]int{0, 1, 2, 3, 4, 5, 6, 6, 6, 7, 8, 9}).Draw(rt, "variant") {
 				case 0, 1, 2:
 					d.Kind = fstage
 				case 3, 4, 5:
 					d.Kind = fstage + "X"
 				case 6:
-					d.Kind = "sc"
+					// suffrage-confirm ballots for the focus point, with two different facts
+					d.Kind = rapid.SampledFrom([]string{"sc", "scX"}).Draw(rt, "scKind")
 				case 7:
 					d.Kind = map[string]string{"init": "initExpel", "accept": "acceptExpel"}[fstage]
 				default:
